@@ -7,6 +7,7 @@ fn main() {
     "C12" => mc::enum_checkers::run(&args),
     "C13" => mc::enum_files::run(&args),
     "C14" => mc::enum_map::run(&args),
+    "C15" => mc::c15::run(&args),
     "smoke" => smoke(),
     "C01" | "C02" | "C03" | "C04" | "C05" | "C06" | "C07" | "C08" | "C09" | "C16" | "C17" | "C18" | "C19" | "C20" => mc::checks::run(&args),
     other => { eprintln!("unknown property {}", other); 2 }
